@@ -652,6 +652,12 @@ fn c05_scenario(btree: bool, split_pipeline: bool, big: bool) -> impl Fn() + Syn
 
 /// `two_cols`: k2 lives in a second column (a transaction spanning two columns)
 fn c05_scenario_c(btree: bool, split_pipeline: bool, big: bool, two_cols: bool) -> impl Fn() + Sync + Send + 'static {
+	c05_scenario_k(btree, split_pipeline, big, two_cols, false)
+}
+
+/// `reuse`: T1 removes k1, T2 stores k2 with a value of k1's size class: k2 takes over the slot(s) k1's value
+/// occupied (a chain of slots when `big`); a reader must never get k2's bytes for k1.
+fn c05_scenario_k(btree: bool, split_pipeline: bool, big: bool, two_cols: bool, reuse: bool) -> impl Fn() + Sync + Send + 'static {
 	move || {
 		let c2: u8 = if two_cols { 1 } else { 0 };
 		ITER.fetch_add(1, Ordering::SeqCst);
@@ -662,12 +668,17 @@ fn c05_scenario_c(btree: bool, split_pipeline: bool, big: bool, two_cols: bool) 
 		let db = Arc::new(Db::open_or_create(&opts).expect("open"));
 		// version -> value of (k1, k2); version 0 is the enacted pre-state
 		let b2 = if big { 40_000 } else { 300 };
-		let versions: Arc<Vec<(Option<Vec<u8>>, Option<Vec<u8>>)>> = Arc::new(vec![
-			(Some(val(10, 1)), Some(val(20, 2))),
-			(Some(val(60, 3)), Some(val(b2, 4))), // other size tiers (multipart when big)
-			(Some(val(10, 5)), None),
-		]);
-		db.commit(vec![(0u8, key(1), versions[0].0.clone()), (c2, key(2), versions[0].1.clone())]).unwrap();
+		let versions: Arc<Vec<(Option<Vec<u8>>, Option<Vec<u8>>)>> = Arc::new(if reuse {
+			let n = if big { 40_000 } else { 10 };
+			vec![(Some(val(n, 1)), None), (None, None), (None, Some(val(n, 9)))]
+		} else {
+			vec![
+				(Some(val(10, 1)), Some(val(20, 2))),
+				(Some(val(60, 3)), Some(val(b2, 4))), // other size tiers (multipart when big)
+				(Some(val(10, 5)), None),
+			]
+		});
+		db.commit(vec![(0u8, key(1), versions[0].0.clone()), (c2, key(2), versions[0].1.clone())].into_iter().filter(|(_, _, v)| v.is_some()).collect::<Vec<_>>()).unwrap();
 		db.process_commits().unwrap();
 		db.flush_logs().unwrap();
 		db.enact_logs().unwrap();
@@ -726,15 +737,19 @@ fn c05_scenario_c(btree: bool, split_pipeline: bool, big: bool, two_cols: bool) 
 				assert!(!v1.is_empty(), "get(k1) returned a value no transaction wrote ({} bytes)", r1.as_ref().map_or(0, |v| v.len()));
 				assert!(!v2.is_empty(), "get(k2) returned a value no transaction wrote ({:?} bytes)", r2.as_ref().map(|v| v.len()));
 				assert!(!v3.is_empty(), "second get(k1) returned a value no transaction wrote");
-				let (v1, v2, v3) = (v1[0], v2[0], v3[0]);
-				// not older than what completed before the read began; not from a commit that had not started:
-				// the writer publishes `committed = v` after commit v returned, so commit v+1 may have started
-				assert!(v1 >= c0 && v1 <= c1 + 1, "get(k1) returned version {} although {} commits had completed before it began ({} after)", v1, c0, c1);
-				assert!(v2 >= c1 && v2 <= c2 + 1, "get(k2) returned version {} although {} commits had completed before it began ({} after)", v2, c1, c2);
-				assert!(v3 >= c2 && v3 <= c3 + 1, "second get(k1) returned version {} ({} completed before, {} after)", v3, c2, c3);
-				// once T was observed, later reads of keys written by T see T or later
-				assert!(v2 >= v1, "k1 was read at version {}, then k2 at the older version {}", v1, v2);
-				assert!(v3 >= v2, "k2 was read at version {}, then k1 at the older version {}", v2, v3);
+				// a value may belong to several versions (e.g. "absent"): the three reads must admit one assignment of
+				// versions that is
+				//  - not older than what completed before the read began and not from a commit that had not started
+				//    (the writer publishes `committed = v` after commit v returned, so commit v+1 may have started),
+				//  - monotone: once T was observed, later reads of keys written by T see T or later
+				let ok = v1.iter().any(|a| {
+					*a >= c0 && *a <= c1 + 1 && v2.iter().any(|b| *b >= c1 && *b <= c2 + 1 && *b >= *a && v3.iter().any(|c| *c >= c2 && *c <= c3 + 1 && *c >= *b))
+				});
+				assert!(
+					ok,
+					"reads k1, k2, k1 returned values of versions {:?}, {:?}, {:?} with {} / {} / {} / {} commits completed before the first / second / third read and after the third: no assignment is atomic, monotone and current",
+					v1, v2, v3, c0, c1, c2, c3
+				);
 			})
 		};
 		w.join().unwrap();
@@ -1231,6 +1246,9 @@ fn run_child(prop: &str, tier: &str, idx: usize) -> Outcome {
 		("C05", 10) => explore("real-workers/log+flush+commit", 1, wall, c05_real_workers(0b0111)),
 		("C05", 11) if !quick => explore("real-workers/all-four", 1, wall, c05_real_workers(0b1111)),
 		("C05", 12) if !quick => explore("real-workers/log+flush+commit", 2, wall, c05_real_workers(0b0111)),
+		("C05", 13) => explore("hash/slot-reuse-by-another-key", 2, wall, c05_scenario_k(false, false, false, false, true)),
+		("C05", 14) => explore("hash/multipart-chain-reuse-by-another-key", 1, wall, c05_scenario_k(false, false, true, false, true)),
+		("C05", 15) if !quick => explore("hash/multipart-chain-reuse-by-another-key", 2, wall, c05_scenario_k(false, true, true, false, true)),
 		("C05", 8) => explore("two-columns/one-pipeline-thread", 2, wall, c05_scenario_c(false, false, false, true)),
 		("C05", 9) => explore("two-columns-btree+split-pipeline", 1, wall, c05_scenario_c(true, true, false, true)),
 		("C05", 4) if !quick => explore("hash/one-pipeline-thread", 3, wall, c05_scenario(false, false, false)),
